@@ -6,6 +6,43 @@ use libcnb::layer_env::LayerEnv;
 use serde_json::{Value, json};
 use std::os::unix::ffi::OsStrExt;
 
+fn replace_bytes(b: &[u8], from: &[u8], to: &[u8]) -> Vec<u8> {
+    let mut out = Vec::with_capacity(b.len());
+    let mut i = 0;
+    while i < b.len() {
+        if !from.is_empty() && b[i..].starts_with(from) {
+            out.extend_from_slice(to);
+            i += from.len();
+        } else {
+            out.push(b[i]);
+            i += 1;
+        }
+    }
+    out
+}
+
+/// entries to write may name the sandbox as `$ROOT` (an explicit entry whose value is the layer's own bin directory)
+fn with_root(root: &std::path::Path, ins: &Value) -> Value {
+    let r = root.as_os_str().as_bytes();
+    json!(ins.as_array().unwrap().iter().map(|i| {
+        let mut i = i.clone();
+        i["v"] = json_bytes(&replace_bytes(&bytes_of(&i["v"]), b"$ROOT", r));
+        i
+    }).collect::<Vec<_>>())
+}
+
+/// file contents of a snapshot with the sandbox prefix removed (the model's paths are sandbox-relative)
+fn snapshot_rel(root: &std::path::Path) -> Value {
+    let r = root.as_os_str().as_bytes();
+    let mut snap = snapshot(root);
+    for n in snap.as_array_mut().unwrap() {
+        if n["k"] == "f" {
+            n["c"] = json_bytes(&replace_bytes(&bytes_of(&n["c"]), r, b""));
+        }
+    }
+    snap
+}
+
 /// replace the sandbox prefix inside values by nothing so that paths are sandbox-relative
 fn strip_root(root: &std::path::Path, v: &Value) -> Value {
     let r = root.as_os_str().as_bytes();
@@ -69,11 +106,11 @@ pub fn run(case: &Value) -> Value {
         dir.push(last);
     }
     let mut steps = vec![];
-    let pre = snapshot(&root);
+    let pre = snapshot_rel(&root);
     for st in case["steps"].as_array().unwrap() {
         let r = match st["op"].as_str().unwrap() {
             "write" => {
-                let le = layer_env_of(&st["ins"]);
+                let le = layer_env_of(&with_root(&root, &st["ins"]));
                 match le.write_to_layer_dir(&dir) {
                     Ok(()) => json!({"ok": true}),
                     Err(e) => json!({"ok": false, "err": errno_name(&e)}),
@@ -106,7 +143,7 @@ pub fn run(case: &Value) -> Value {
             },
             o => panic!("op {o}"),
         };
-        steps.push(json!({"res": r, "snapshot": snapshot(&root)}));
+        steps.push(json!({"res": r, "snapshot": snapshot_rel(&root)}));
     }
     destroy(&root);
     json!({"id": case["id"], "pre": pre, "steps": steps})
